@@ -227,7 +227,7 @@ func ruleSenderRetry(w *core.World, r *core.Report) {
 		rv := p.Resolve(ret.Results[0])
 		lastFailed := false
 		for _, fct := range p.Conds {
-			cm, ok := core.AsCmp(fct.Cond, fct.Val)
+			cm, ok := core.FactCmp(fct)
 			if ok && core.IsNilConst(cm.Y) && p.Resolve(cm.X) == last && cm.Op == token.NEQ {
 				lastFailed = true
 			}
@@ -256,7 +256,7 @@ func ruleSenderRetry(w *core.World, r *core.Report) {
 			}
 			bounded := false
 			for _, fct := range core.FactsAt(pr) {
-				cm, ok := core.AsCmp(fct.Cond, fct.Val)
+				cm, ok := core.FactCmp(fct)
 				if ok && cm.Op == token.LSS {
 					if _, isK := core.ConstInt(cm.Y); isK {
 						bounded = true
@@ -592,7 +592,7 @@ func ruleNoErrorAsReply(w *core.World, r *core.Report, debug bool) {
 			// which calls are known to have failed when this return executes?
 			var failed []ssa.Value
 			for _, fct := range core.FactsAt(ret.Block()) {
-				c, ok := core.AsCmp(fct.Cond, fct.Val)
+				c, ok := core.FactCmp(fct)
 				if !ok || c.Op != token.NEQ || !core.IsNilConst(c.Y) {
 					continue
 				}
@@ -742,7 +742,7 @@ func ruleBatchPoisoned(w *core.World, r *core.Report) {
 			n++
 			clean := false
 			for _, fct := range core.FactsAt(in.Block()) {
-				c, ok := core.AsCmp(fct.Cond, fct.Val)
+				c, ok := core.FactCmp(fct)
 				if ok && c.Op == token.EQL && core.IsNilConst(c.Y) && core.IsFieldLoad(core.Unwrap(c.X), s.typ, "err") {
 					clean = true
 				}
@@ -1005,4 +1005,26 @@ func paramBehindFreeVar(fv *ssa.FreeVar) ssa.Value {
 		}
 	}
 	return nil
+}
+
+
+// factsBefore: the branch outcomes the path passed before it first executed `at`.
+func factsBefore(p *core.Path, at ssa.Instruction) []core.Fact {
+	var out []core.Fact
+	ci := 0
+	for _, in := range p.Instrs {
+		if in == at {
+			break
+		}
+		if iff, ok := in.(*ssa.If); ok {
+			for ci < len(p.Conds) && p.Conds[ci].If != iff {
+				ci++
+			}
+			if ci < len(p.Conds) {
+				out = append(out, p.Conds[ci])
+				ci++
+			}
+		}
+	}
+	return out
 }
